@@ -419,10 +419,17 @@ def shrink(b, sim, scenario, sig, budget=400, env=None):
     """Delta debugging over the scenario's lists while the same signature persists."""
     tried = [0]
     best = scenario
+    # shrinking is a convenience: it stops when its wall-clock allowance is used up (slow scenarios - seconds of CPU per
+    # execution - would otherwise keep a check busy for an hour) and the smallest reproducing scenario so far is kept
+    wall_end = time.time() + float(os.environ.get('VERIF_SHRINK_WALL_S', '240'))
 
     def test_many(cands):
+        left = wall_end - time.time()
+        if left <= 5:
+            tried[0] = budget
+            return [False] * len(cands)
         tried[0] += len(cands)
-        rs = run_replay(b, sim, cands, timeout=900, env=env)
+        rs = run_replay(b, sim, cands, timeout=min(900, left + 30), env=env)
         return [r is not None and r.get('sig') == sig for r in rs]
 
     for key in SHRINK_LISTS:
